@@ -58,11 +58,12 @@ Definition zrange (a n : Z) : list Z := map (fun i => a + Z.of_nat i) (seq 0 (Z.
 
 (** the render contract, decided on one start position: bit k of the result is set when
     clause k fails (0 = all hold) *)
-Definition rect_check (w h lm r0 : Z) (R : list tok) : list bool :=
+Definition rect_check_need (need : Z -> Z -> bool) (w h lm r0 : Z) (R : list tok) : list bool :=
   let t := start r0 lm in
   let t' := exec lm t R in
   [ forallb (ev_inside r0 lm h w) (log t');
-    forallb (fun r => forallb (fun c => covered (log t') r c) (zrange lm w)) (zrange r0 h);
+    forallb (fun r => forallb (fun c => negb (need (r - r0) (c - lm)) || covered (log t') r c)
+                              (zrange lm w)) (zrange r0 h);
     (row t' =? r0 + h - 1) && (col t' =? lm + w);
     attrs_eqb (sgr t') adefault;
     is_ground (parser t') && is_none (pending t');
@@ -70,8 +71,11 @@ Definition rect_check (w h lm r0 : Z) (R : list tok) : list bool :=
     Nat.eqb (count_lf R) (Z.to_nat (h - 1));
     negb (is_lf (last R TNul));
     lf_okb lm w t R ].
+Definition rect_check := rect_check_need all_cells.
 Definition rect_checkb (w h lm r0 : Z) (R : list tok) : bool :=
   forallb (fun b => b) (rect_check w h lm r0 R).
+Definition rect_checkb_need need (w h lm r0 : Z) (R : list tok) : bool :=
+  forallb (fun b => b) (rect_check_need need w h lm r0 R).
 
 (** (upper, lower) colours of the cells of an [h x w] area as integers for comparison:
     -1 = nothing there, -2 = terminal background, -3 = default foreground, else r*65536+g*256+b *)
